@@ -110,7 +110,17 @@ def build_catalogue():
         c('qkids_score', 'WESSEXLEAGUE', 'LJ', 3.5), c('qkids_score', 'QKWL', 'ZZ', 1),
         c('bulgarian_score', 'U16', 'M', '100', '12.0'), c('bulgarian_score', 'U16', 'F', 'LJ', 4.5),
         c('normalize_event_code', '4x100h'), c('get_implement_weight', 'SP', 'M', 'U17'),
-        c('calc_uka_age_group', '2000-05-01', '2017-06-01', 'TF')]
+        c('calc_uka_age_group', '2000-05-01', '2017-06-01', 'TF'),
+        # helpers the scoring / grading functions lean on (no shared state today)
+        c('parse_hms', '1:02:03.4'), c('parse_hms', '16:23'), c('get_distance', '5K'), c('get_distance', 'MAR'),
+        c('get_distance', '3M'), c('str2num', '12.50'), c('round_up_str_num', '12.345', 2),
+        c('format_seconds_as_time', 3723.456), c('check_performance_for_discipline', '100', '10.5'),
+        c('check_performance_for_discipline', 'LJ', '6.20'), c('check_performance_for_discipline', 'MAR', '2:10:05'),
+        c('discipline_sort_key', '400H'), c('text_discipline_sort_key', 'HJ'),
+        c('sort_by_discipline', ['HJ', '100', '5000', '4x100', 'LJ']), c('normalize_gender', 'female'),
+        c('normalize_event_code', '5000m'), c('normalize_event_code', 'sp4k'), c('is_hand_timing', '10.5'),
+        c('get_specific_event_code', 'SP', 'M', 'U17'), c('get_implement_weight', 'JT', 'F', 'V50'),
+        c('tyrving_score', 'F', 13, '600', '1:50.2'), c('qkids_score', 'QKWL', '600', '2:01')]
     return cat
 
 
